@@ -37,10 +37,13 @@ def run(model, rep, tier):
     r4_who_may_assign(ctx, rep)
     r5_subunit_forces_buffer(ctx, rep)
     r8_capture_is_complete(ctx, rep)
+    r9_buffer_never_switched_off(ctx, rep)
     rep.rule('C13.R7', 'premise of R1 in post-mortem mode, where the package drives the result itself: '
              'stopTest (which restores the streams) follows every startTest on every exit of the loop')
     tsrules.driver_brackets(ctx, rep, 'C13.R7')
     tsrules.record_units(rep, tsrules.exploration(ctx))
+    from . import robust
+    robust.asserts_have_no_effects(ctx, rep, 'C13.R20', 'C13')
     rep.units['cfg'] = ctx.cfg_stats
 
 
@@ -322,3 +325,55 @@ def r8_capture_is_complete(ctx, rep, R='C13.R8'):
                 cls.name, [norm(c) for c, k in relevant] or 'no constructor call found'),
             key='write-through:' + cls.name, func='runner.' + cls.name,
             where='%s:%s' % (mod.path, cls.lineno))
+
+
+def r9_buffer_never_switched_off(ctx, rep, R='C13.R9'):
+    """'with --buffer' quantifies over every other option: whatever else is on the command line, the
+    TestResult must see options.buffer as given.  The parser stores it; the only other store the
+    property allows is forcing it ON (subunit).  A store of anything else -- False under
+    --post-mortem, the value of another option -- silently turns the capture off for some
+    combination of options."""
+    rep.rule(R, '--buffer survives every other option: outside the parser, options.buffer is only ever '
+             'stored with the constant True (forced on for subunit); nothing stores another value, '
+             'deletes it, or writes it through setattr / vars() / __dict__')
+    m = ctx.model
+    n = 0
+    for fi in m.all_functions():
+        if fi.module.name.startswith('tests'):
+            continue
+        for x in ast.walk(fi.node):
+            tgt = val = None
+            if isinstance(x, ast.Assign):
+                for t in x.targets:
+                    for tt in (t.elts if isinstance(t, (ast.Tuple, ast.List)) else [t]):
+                        if isinstance(tt, ast.Attribute) and tt.attr == 'buffer' and \
+                                (dotted(tt.value) or '').split('.')[-1] in ('options', 'defaults', 'opts'):
+                            tgt, val = tt, (x.value if tt is t else None)
+            elif isinstance(x, (ast.AugAssign, ast.AnnAssign)) and isinstance(x.target, ast.Attribute) and \
+                    x.target.attr == 'buffer' and (dotted(x.target.value) or '').split('.')[-1] in (
+                        'options', 'defaults', 'opts'):
+                tgt, val = x.target, None
+            elif isinstance(x, ast.Delete):
+                for t in x.targets:
+                    if isinstance(t, ast.Attribute) and t.attr == 'buffer' and \
+                            (dotted(t.value) or '').split('.')[-1] in ('options', 'defaults', 'opts'):
+                        tgt, val = t, None
+            elif isinstance(x, ast.Call) and dotted(x.func) in ('setattr', 'delattr') and len(x.args) >= 2 and \
+                    isinstance(x.args[1], ast.Constant) and x.args[1].value == 'buffer':
+                tgt, val = x, (x.args[2] if len(x.args) > 2 else None)
+            elif isinstance(x, ast.Subscript) and isinstance(x.ctx, (ast.Store, ast.Del)) and \
+                    isinstance(x.slice, ast.Constant) and x.slice.value == 'buffer' and (
+                        'options' in norm(x.value) or 'defaults' in norm(x.value)):
+                tgt, val = x, None
+            if tgt is None:
+                continue
+            n += 1
+            ok = isinstance(val, ast.Constant) and val.value is True
+            rep.check(ok, R, '%s: %s is only forced on' % (fi.qualname, norm(tgt)[:40]),
+                      '%s stores %s into options.buffer: for some combination of options the run is not '
+                      'buffered although --buffer was given (output of passing tests shown, output of '
+                      'failing tests not attributed)' % (fi.qualname, norm(val)[:40] if val is not None else
+                                                         'something other than True'),
+                      key='buffer-store:%s:%s' % (fi.qualname, norm(val)[:30] if val is not None else '?'),
+                      func=fi.qualname, where=ctx.where(fi, tgt))
+    rep.floor(R, n, 1, 'stores into options.buffer outside the parser')
